@@ -29,7 +29,7 @@ func init() {
 		Flavours: releaseThenGo126,
 		Required: []string{"kind/legacy", "kind/legacy+version", "kind/BytesValue", "kind/StringValue", "kind/BytesValue+version",
 			"body/0", "body/1", "body/70000", "ver/len=0", "ver/len=16", "ver/interior-NUL", "chunk/whole", "chunk/one-byte", "chunk/random", "chunk/data+EOF", "chunk/zero-reads",
-			"stream/frames=1", "stream/frames>=4", "stream/eof-after-last", "target/reused", "target/reused-for-empty-body", "stream/frame>1MiB-followed-by-frames", "reader/std-type"},
+			"stream/frames=1", "stream/frames>=4", "stream/eof-after-last", "target/reused", "target/reused-for-empty-body", "stream/frame>1MiB-followed-by-frames", "reader/std-type", "writer/std-type"},
 		Families: func(c *mon.Config) []mon.Family {
 			return []mon.Family{
 				{Name: "frames", N: pbNKinds * (len(c06BodyLens) + 1) * 17 * c.Pick(2, 100), Run: c06Frames},
@@ -72,6 +72,26 @@ func c06CheckMarshal(w *mon.W, c pbCase) ([]byte, bool) {
 	if !bytes.Equal(wire[32:], body) {
 		w.Fail("Marshal/body-bytes", d())
 		return nil, false
+	}
+	// the same message into writer types of the standard library: same count, same bytes
+	sel, _ := w.State["c06wsel"].(int)
+	w.State["c06wsel"] = sel + 1
+	for _, j := range []int{sel, sel + 3} {
+		sw := newStdWriter(j)
+		w.Op = "Marshal(" + sw.name + ")"
+		n2, err2 := pbcmpl.Marshal(sw.w, msg)
+		w.Eval(1)
+		var got []byte
+		if sw.written != nil {
+			got = sw.written()
+		}
+		if err2 != nil || int(n2) != len(wire) || (sw.written != nil && !bytes.Equal(got, wire)) {
+			dd := d()
+			dd["writer_type"], dd["returned_n"], dd["err"], dd["bytes_at_sink"], dd["expected_bytes"] = sw.name, n2, errStr(err2), len(got), len(wire)
+			w.Fail("Marshal/std-writer", dd)
+			return nil, false
+		}
+		w.Bucket("writer/std-type")
 	}
 	w.Op = "ReadHeader"
 	cr := newChunkReader(wire, chWhole, w.Rng)
